@@ -37,7 +37,8 @@ F_FUTURE = 'C08-future-import-not-first'
 F_LINE = 'C08-inserted-nodes-wrong-line'
 F_BAREREL = 'C08-bare-relative-import-typeerror'
 F_SHADOW = 'C08-profile-name-captured-in-class-body'
-ALL_FINDINGS = [F_GENRET, F_GENTHROW, F_STAR, F_FUTURE, F_LINE, F_BAREREL, F_SHADOW]
+F_MULTILINE = 'C08-inserted-nodes-span-multiline-import'
+ALL_FINDINGS = [F_GENRET, F_GENTHROW, F_STAR, F_FUTURE, F_LINE, F_BAREREL, F_SHADOW, F_MULTILINE]
 
 
 # ---------------------------------------------------------------------------------------
@@ -128,6 +129,17 @@ def py_tree_spec(case, t):
         ok = all(f[3].count(prof) == 1 and f[3][-1] == prof for f in fo)
     if not ok:
         fails.append(('decorators', 'decorators are not "profile appended once, innermost, nothing else"', None))
+    if case.get('modname_h') and t.get('modname') != case['modname_h']:
+        fails.append(('modname', 'the executed module is given the dotted position %r, it is run as %r'
+                      % (t.get('modname'), case['modname_h']), None))
+    pflags_o = [s[3] for s in AC.walk(orig) if s[0] == 'P' and len(s) > 3]
+    pflags = [s[3] for s in AC.walk(out) if s[0] == 'P' and len(s) > 3]
+    if any(f['shared'] or f['mixed'] for f in pflags) and not any(f['shared'] or f['mixed'] for f in pflags_o):
+        fails.append(('located', 'the nodes of an inserted registration statement do not all carry one line of their own '
+                                 '(a node shared between statements, or nodes on different lines)', None))
+    if sum(f['multiline'] for f in pflags) > sum(f['multiline'] for f in pflags_o):
+        fails.append(('oneline', 'an inserted registration statement spans several lines (it copied the extent of a multi-line '
+                                 'import): its line events bounce between the first and the last line of that import', F_MULTILINE))
     if py_located(orig) and not py_located(out):
         fails.append(('located', 'an inserted registration statement does not carry the line of the import it follows',
                       F_LINE))
@@ -226,6 +238,8 @@ def behaviour_as_tree_cases(bcase):
             if not c.startswith('-'):
                 specs += c.split(',')
         out.append(dict(kind='tree', files=bcase['files'], script=bcase['script'], module=bcase['module'],
+                        symlinks=bcase.get('symlinks'), script_real=bcase.get('script_real', bcase['script']),
+                        modname_h=bcase.get('modname_h'),
                         prof_mod=specs, imports='--prof-imports' in cfg, cli=None, e2e=False, from_behaviour=True))
     return out
 
@@ -400,7 +414,7 @@ def run(tier, seed):
     samples = []
     if beh:
         for i in (0, len(beh) // 2):
-            samples.append(dict(program=beh[i]['files'][beh[i]['script']][:500], configs=beh[i]['configs'],
+            samples.append(dict(program=beh[i]['files'][beh[i].get('script_real', beh[i]['script'])][:500], configs=beh[i]['configs'],
                                 python=dict(rc=bres[i]['plain']['rc'], out=bres[i]['plain']['out'][:4]),
                                 kernprof=[dict(rc=b['rc'], exc=b['exc'], out=b['out'][:4]) for b in bres[i]['kern']]))
     if trees:
